@@ -110,6 +110,17 @@ CLAIMED["C10"] = {
     "technique": "property-based testing with harness-owned schedules: invariant over task executions + differential across schedules",
 }
 
+CLAIMED["C06"] = {
+    "text": "Process-long HISTORIES of small programs from a deliberately collision-prone family (12 re-created source arrays, few chunkings, seeded random arrays, slice chains reaching one region by different routes, rechunks to one target from different parents, persisted results); a per-process registry maps every node name (raw/simplified/lowered/fused/materialised forms) to (shape, chunks, dtype) and every array-valued graph key (optimised and un-fused graphs, own executor) to a value digest; any re-mint with other metadata or digest is a violation, replayed as the pair of programs. " + EXPL,
+    "note": "Only array-valued task results enter the key registry; user-pinned names are not generated (their uniqueness is the caller's duty); conflicts needing three or more programs would be reported but not shrunk below the pair.",
+    "technique": "property-based testing over histories: invariant (name/key -> metadata/value) over the whole history",
+}
+CLAIMED["C07"] = {
+    "text": PROG + " over tokenizable inputs: built twice in-process (equal name and optimised key set), rebuilt in a fresh interpreter with another PYTHONHASHSEED (per-shard batches), and cloudpickled at four stages (fresh, after .chunks, after optimize, after compute) then unpickled in-process and in the fresh interpreter: name, keys, chunks, dtype, Frisky output keys and bitwise values must survive; an untokenizable (unpicklable) source must keep one name per instance. " + EXPL,
+    "note": "Fresh-interpreter comparisons cover a batch of 12 (quick) / 80 (thorough) programs per shard; values compared bitwise against the original collection.",
+    "technique": "property-based testing: round-trip (pickle) and differential across processes / rebuilds",
+}
+
 NOT_APPLICABLE = {
     "C22": "native Rust extension cannot be built offline (pyo3 0.29 and other crates are absent from the offline cargo registry; no prebuilt .so), so no native layer can be instantiated to generate inputs against; see DESIGN.md section 4 C22",
 }
